@@ -48,6 +48,11 @@ def _mk_events(thorough):
     # $PWD with BaseShell._fix_cwd() before the next prompt
     for d in ("{R}/c", "{R}/l", "{R}/a/b"):
         evs.append(["extchdir", d])
+    # the path-literal context manager `cm = p'<dir>'.cd()` (built_ins.py) is an object the user can
+    # build at one point of the session and enter later (and more than once): `with cm: pass` must
+    # bring the process back to where the block was ENTERED, whatever happened since `cm` was built
+    evs.append(["cmnew", "{R}/a"])
+    evs.append(["cmrun"])
     return evs
 
 
@@ -81,6 +86,7 @@ class Harness:
         os.chmod(os.path.join(R, "noexec"), 0o600)
 
     def reset(self):
+        self.cm = None  # (context manager object, directory it was built in)
         c = os.path.join(self.R, "c")
         if not os.path.isdir(c):
             os.makedirs(c)
@@ -138,6 +144,9 @@ class Harness:
             [self.rel(x) for x in s["stack"]],
             self.toggles(),
             os.path.isdir(os.path.join(self.R, "c")),
+            # where the stored context manager was built: kept apart on purpose, two histories that
+            # differ only in this must not be merged (an implementation may have captured it)
+            None if self.cm is None else self.rel(self.cm[1]),
         ]
 
     def menu(self):
@@ -339,6 +348,33 @@ class Harness:
             else:
                 os.makedirs(c)
             return []
+        if ev[0] == "cmnew":
+            from xonsh.built_ins import XonshPathLiteral
+
+            self.cm = (XonshPathLiteral(self.sub([ev[1]])[0]).cd(), os.getcwd())
+            return []
+        if ev[0] == "cmrun":
+            if self.cm is None:
+                return []
+            pre = self.snap()
+            inside = None
+            try:
+                with self.cm[0] as _p:
+                    inside = os.getcwd()
+            except Exception as e:  # noqa: BLE001
+                inside = f"{type(e).__name__}: {e}"
+            if not check:
+                return []
+            post = self.snap()
+            viols = []
+            case = {"op": ev, "pre": self._relsnap(pre), "cm_built_in": self.rel(self.cm[1]), "cm_target": self.rel(str(self.cm[0].path))}
+            if inside != os.path.realpath(str(self.cm[0].path)) and inside != str(self.cm[0].path):
+                viols.append({"key": "path-literal-cd:block-runs-in-target", "clause": "pwd-names-cwd", "case": case, "observed": self.rel(inside), "expected": self.rel(str(self.cm[0].path))})
+            if post["cwd"] != pre["cwd"]:
+                viols.append({"key": "path-literal-cd:restores-directory-of-entry", "clause": "pwd-names-cwd", "case": case, "observed": self.rel(post["cwd"]), "expected": self.rel(pre["cwd"])})
+            if (post["PWD"], post["OLDPWD"], post["stack"]) != (pre["PWD"], pre["OLDPWD"], pre["stack"]):
+                viols.append({"key": "path-literal-cd:shell-record-untouched", "clause": "pwd-names-cwd", "case": case, "observed": self._relsnap(post), "expected": self._relsnap(pre)})
+            return viols
         if ev[0] == "extchdir":
             from xonsh.shells.base_shell import BaseShell
 
